@@ -293,6 +293,22 @@ class CFG:
                     changed = True
         return pdom
 
+    def control_deps(self):
+        """cd[n] = set of branch nodes n is control dependent on (normal edges only,
+        w.r.t. the normal EXIT)."""
+        pdom = self.post_dominators()
+        cd = {n: set() for n in self.stmt}
+        for b in self.stmt:
+            succs = [s for s, l in self.succ[b] if l != "exc"]
+            if len(set(succs)) < 2:
+                continue
+            pb = pdom.get(b, set())
+            for s in set(succs):
+                for n in pdom.get(s, ()):
+                    if n == b or n not in pb:
+                        cd[n].add(b)
+        return cd
+
     def paths_avoiding(self, src, dst, avoid, skip_exc=True):
         """Is there a path src ->* dst that passes through no node of ``avoid``
         (src and dst themselves excepted)?"""
